@@ -143,7 +143,79 @@ def oracle(case, lines, insts):
     return fails
 
 
+def reconfigure_run(rng):
+    """the budget (bitrate and / or window) is changed on a live layer with params.set() + load_params(); after the old history has
+    left the window, bursts obey the NEW budget"""
+    from core import ImplInst
+    a, _ = rand_inst_pair(rng)
+    w1 = rng.choice([0.25, 0.5])
+    frames1 = rng.choice([16, 32])
+    p1 = {'rate_limit_enable': True, 'rate_limit_max_bitrate': int(frames1 * 64 / w1), 'rate_limit_window_size': w1, 'stmin': 0}
+    change = rng.choice(['bitrate', 'window', 'both'])
+    w2 = w1 if change == 'bitrate' else w1 / 2
+    frames2 = 2 if change != 'window' else None
+    br2 = int(frames2 * 64 / w2) if frames2 else p1['rate_limit_max_bitrate']
+    inst = dict(a, params=p1)
+    im = ImplInst(inst)
+    emis = []
+    now = [0]
+
+    def proc():
+        line = im.run_op([0, 'proc', 1, 1])
+        for e in split_line(line)[0]:
+            if e.startswith('tx:'):
+                emis.append((now[0], 8 * len(unhx(e.split(':')[6]))))
+
+    def tick(d):
+        im.run_op([0, 'tick', d]); now[0] += d
+    try:
+        for _ in range(10):
+            im.run_op([0, 'send', None, hx(bytes([1, 2, 3]))])
+        proc()
+        if br2 != p1['rate_limit_max_bitrate']:
+            im.layer.params.set('rate_limit_max_bitrate', br2)
+        if w2 != w1:
+            im.layer.params.set('rate_limit_window_size', w2)
+        im.layer.load_params()
+        tick(int(3 * w1 * 1e9)); proc()            # the old history leaves the window
+        t_change = now[0]
+        for _ in range(60):
+            im.run_op([0, 'send', None, hx(bytes([4, 5, 6, 7]))])
+        for _ in range(40):
+            proc(); tick(rng.choice([1000000, 7000000, int(w2 * 1e9 / 3)]))
+    finally:
+        import time as _t
+        from core import _REAL
+        _t.perf_counter_ns, _t.perf_counter = _REAL
+    W2 = int(w2 * 1e9)
+    B2 = br2 * w2
+    late = [(t, b) for t, b in emis if t >= t_change]
+    fails = []
+    for i in range(len(late)):
+        s0 = late[i][0]
+        bits = sum(b for t, b in late[i:] if t - s0 <= W2 - SLOT)
+        if bits > B2 + 64:
+            fails.append(('C15:burst-exceeds-budget', 'after the budget was changed to %s bits per %s s: %d bits in an interval of %d ns (old budget %s bits per %s s)' % (
+                B2, w2, bits, W2 - SLOT, p1['rate_limit_max_bitrate'] * w1, w1)))
+            break
+    if not late:
+        fails.append(('C15:transfer-stalled', 'nothing was sent after the budget change'))
+    return fails, {'inst': inst, 'change': change, 'emitted_after': len(late)}
+
+
 def run_shard(campaign, shard, nshards, seed, tier):
+    if campaign == 'reconfigure':
+        part = Part()
+        rng = random.Random('%s/%s/%s' % (seed, campaign, shard))
+        for _ in range((24 if tier != 'thorough' else 1000) // nshards + 1):
+            fails, info = reconfigure_run(rng)
+            part.d['evaluations'] += 1
+            part.distinct(info)
+            part.hist('reconfigure', info['change'])
+            if fails:
+                part.violation('oracle', campaign, fails[0][0], fails[0][1], {'scenario': 'reconfigure', 'info': info})
+            part.sample(info)
+        return part.result()
     part = Part()
     rng = random.Random('%s/%s/%s' % (seed, campaign, shard))
     quick = tier != 'thorough'
@@ -166,4 +238,5 @@ def run_shard(campaign, shard, nshards, seed, tier):
 def run(ctx):
     run_sharded(ctx, 'C15', 'throttle')
     run_sharded(ctx, 'C15', 'disabled')
+    run_sharded(ctx, 'C15', 'reconfigure')
     return RULE, ASSUME
